@@ -219,7 +219,19 @@ class Script:
                         return False
                     # hashes match! now add the RedeemScript
                     stream = BytesIO(redeem_script)
-                    commands.extend(Script.parse(stream).commands)
+                    redeem_commands = Script.parse(stream).commands
+                    # BIP141: the ScriptSig of a p2sh-wrapped witness program
+                    # is exactly the push of the RedeemScript
+                    if (
+                        len(stack) > 0
+                        and len(redeem_commands) == 2
+                        and redeem_commands[0] == 0
+                        and isinstance(redeem_commands[1], bytes)
+                        and len(redeem_commands[1]) in (20, 32)
+                    ):
+                        print("extra items in the ScriptSig of a p2sh witness program")
+                        return False
+                    commands.extend(redeem_commands)
                 # witness program version 0 rule. if stack commands are:
                 # 0 <20 byte hash> this is p2wpkh
                 if len(stack) == 2 and stack[0] == b"" and len(stack[1]) == 20:
